@@ -57,6 +57,15 @@ class Maker:
     def type_error(self, x):
         return len(x)
 
+    def unserializable(self, x):
+        # a reply that cannot be pickled (each kind is rejected by pickle with a different exception class)
+        import threading
+        if x % 3 == 0:
+            return (i for i in range(3))          # TypeError: cannot pickle 'generator' object
+        if x % 3 == 1:
+            raise KeyError('dup', x, threading.Lock())   # an exception whose args cannot be pickled
+        return lambda: x                          # PicklingError / AttributeError: local object
+
     def raise_lib(self, x):
         # exception classes that the proxy machinery itself uses for its own control flow
         import queue
